@@ -70,11 +70,15 @@ const c16PlistMarker = "${X}/unsortable"
 
 var c16UsedByAlphabet = []string{"", "#", "# $" + "NetBSD$", "# comment", "# used by " + c16UsedByName, "# used by cat/q/Makefile", "# used by a b", "VAR=\tvalue"}
 
+// further shapes for the line classification (MkLineParser): indented comments, blank lines
+var c16UsedByExtra = []string{" # indented", "\t# after a tab", "   ", "\t", "#VAR=\tcommented", "\t# used by " + c16UsedByName}
+
 var c16PlistAlphabet = []string{"@comment $" + "NetBSD$", "", "bin/a", "man/man1/a.1.gz", "man/man1/b.1", "${PLIST.x}man/man3/c.3.gz",
 	"${PKGMANDIR}/man1/d.1.gz", "man/cat1/e.0.gz.gz", "${PLIST.x}", "@comment c", "${PKGMANDIR}/man1/${PKGMANDIR}/f.1", "man/man1/g.gz", "${PLIST.x}${PLIST.y-z}man/manx/h..gz"}
 
 var c16PlistExtra = []string{"man/man1/i.1.gz", "man/man8/j.8.gz", "${PLIST.y}man/cat5/k.0.gz", "${PKGMANDIR}", "${PKGMANDIR}/man5/l.5", "man/m.1.gz", "man/man1/n-1.gz", "man/man1/sub/o.1.gz",
-	"share/man/man1/p.1.gz", "${PLIST.}man/man1/q.1.gz", "${PLIST.x}bin/r", "lib/s.gz", "man/mann/t.n.gz", "man/man3/u.3.gz.gz.gz", "@pkgdir v"}
+	"share/man/man1/p.1.gz", "${PLIST.}man/man1/q.1.gz", "${PLIST.x}bin/r", "lib/s.gz", "man/mann/t.n.gz", "man/man3/u.3.gz.gz.gz", "@pkgdir v",
+	"man/man1/README", "man/man1/w.", "/absolute/x.1.gz", "man/man1/", "man"}
 
 func c16AllSeqs(alpha []string, maxLen int, f func([]string)) {
 	var rec func(cur []string)
@@ -116,11 +120,26 @@ func c16FixerCases(ctx *Ctx, rng *Rng) (cases []c16FCase, exhaustiveLen map[stri
 	c16AllSeqs(c16UsedByAlphabet, lu, func(ls []string) {
 		cases = append(cases, c16FCase{"usedby", c16UsedByName, ls})
 	})
+	allU := append(append([]string{}, c16UsedByAlphabet...), c16UsedByExtra...)
+	c16AllSeqs(allU, 3, func(ls []string) {
+		for _, l := range ls {
+			for _, x := range c16UsedByExtra {
+				if l == x {
+					cases = append(cases, c16FCase{"usedby", c16UsedByName, ls})
+					return
+				}
+			}
+		}
+	})
 	for i := 0; i < nrand; i++ {
 		n := lu + 1 + rng.Intn(6)
 		ls := make([]string, n)
 		for j := range ls {
-			ls[j] = Pick(rng, c16UsedByAlphabet)
+			if rng.Chance(80) {
+				ls[j] = Pick(rng, c16UsedByAlphabet)
+			} else {
+				ls[j] = Pick(rng, allU)
+			}
 		}
 		cases = append(cases, c16FCase{"usedby", c16UsedByName, ls})
 	}
@@ -152,6 +171,8 @@ func c16FixerCases(ctx *Ctx, rng *Rng) (cases []c16FCase, exhaustiveLen map[stri
 			cases = append(cases, c16FCase{"plist", "", ls})
 		}
 	}
+	// the early return of CheckLinesPlist: nothing but the CVS id
+	cases = append(cases, c16FCase{"plist", "", []string{"@comment $" + "NetBSD$"}}, c16FCase{"plist", "", []string{"@comment $" + "NetBSD: PLIST,v 1.1 2020/01/01 00:00:00 u Exp $"}})
 	firsts := []string{"$" + "NetBSD$", "# $" + "NetBSD$", "#\t $" + "NetBSD: x $", "#$" + "NetBSD$", "@comment $" + "NetBSD$", "@comment  $" + "NetBSD$",
 		"$" + "NetBSD: a$b $", "$" + "NetBSD:$", "", "x", "# $" + "NetBSD", "@comment $" + "NetBSD: f,v 1.1 $", "#  $" + "NetBSD: Makefile,v 1.2 2020/01/01 00:00:00 u Exp $", " # $" + "NetBSD$"}
 	for _, k := range []string{"cvsid-plain", "cvsid-mk", "cvsid-plist"} {
@@ -490,4 +511,13 @@ func c16ReplayFixer(ctx *Ctx, res *Result, rep map[string]any) {
 		rep["broken"], _ = rep["broken"].(string)
 		res.AddViolation(Violation{Key: "C16/correspondence/" + kind, What: fmt.Sprintf("%s %q: the code gives %q, the model %s %q", kind, lines, real[0].After, status, out), FoundInput: false, Replay: rep})
 	}
+}
+
+// `vharness run tool-c16-fixers …`: only the in-process fixer correspondence (coverage measurements, development).
+func init() {
+	register("tool-c16-fixers", func(ctx *Ctx) *Result {
+		res := &Result{Rule: "tool: in-process fixer correspondence of C16 only"}
+		c16Fixers(ctx, res, NewRng(ctx.Seed).Fork())
+		return res
+	}, nil)
 }
